@@ -178,6 +178,8 @@ def gen_call(r, prog, malformed=False):
     kw = {}
     for n in r.sample(names, min(len(names), r.choice([0, 0, 1, 2, 3]))):
         kw[n] = r.choice(pool)
+    if prog['kind'] in ('method', 'callable', 'partial_method') and not prog.get('noself') and r.random() < 0.06:
+        kw['self'] = r.choice(pool)          # the instance parameter is already bound: CPython rejects this keyword unless it can go to **kw... it cannot
     return args, kw
 
 
